@@ -55,6 +55,8 @@ func main() {
 		procMode(*seed, *n)
 	case "reload":
 		reloadMode(*seed, *n, *walk)
+	case "fail":
+		failMode(*seed, *n)
 	default:
 		fmt.Fprintln(os.Stderr, "unknown mode")
 		os.Exit(2)
